@@ -426,28 +426,15 @@ def run_worker(script, payload, timeout=1800):
 
 
 def run_workers_parallel(script, payloads, timeout=1800, jobs=16):
-    """Run several workers concurrently; returns list of (rc, rows, stderr)."""
-    procs = []
+    """Run several workers concurrently; returns list of (rc, rows, stderr).
+
+    stdin, stdout and stderr all go through temporary files, so every worker
+    starts at once and none blocks on a full pipe."""
     results = [None] * len(payloads)
     idx = 0
     running = []
-    while idx < len(payloads) or running:
-        while idx < len(payloads) and len(running) < jobs:
-            pr = subprocess.Popen(
-                [PY, os.path.join(VERIF, "harness", script)],
-                stdin=subprocess.PIPE, stdout=subprocess.PIPE, stderr=subprocess.PIPE,
-                env=child_env(), text=True)
-            pr._payload = json.dumps(payloads[idx])
-            running.append((idx, pr))
-            idx += 1
-        # communicate sequentially with the oldest; others keep running
-        i, pr = running.pop(0)
-        try:
-            out, err = pr.communicate(pr._payload, timeout=timeout)
-        except subprocess.TimeoutExpired:
-            pr.kill()
-            out, err = pr.communicate()
-            err += "\nTIMEOUT"
+
+    def parse(out):
         rows = []
         for line in out.splitlines():
             line = line.strip()
@@ -456,7 +443,36 @@ def run_workers_parallel(script, payloads, timeout=1800, jobs=16):
                     rows.append(json.loads(line))
                 except Exception:
                     pass
-        results[i] = (pr.returncode, rows, err)
+        return rows
+
+    while idx < len(payloads) or running:
+        while idx < len(payloads) and len(running) < jobs:
+            fin = tempfile.TemporaryFile(mode="w+")
+            json.dump(payloads[idx], fin)
+            fin.flush()
+            fin.seek(0)
+            fout = tempfile.TemporaryFile(mode="w+")
+            ferr = tempfile.TemporaryFile(mode="w+")
+            pr = subprocess.Popen(
+                [PY, os.path.join(VERIF, "harness", script)],
+                stdin=fin, stdout=fout, stderr=ferr, env=child_env(), text=True)
+            fin.close()
+            running.append((idx, pr, fout, ferr, time.time()))
+            idx += 1
+        i, pr, fout, ferr, t0 = running.pop(0)
+        try:
+            pr.wait(timeout=max(1, timeout - (time.time() - t0)))
+            extra = ""
+        except subprocess.TimeoutExpired:
+            pr.kill()
+            pr.wait()
+            extra = "\nTIMEOUT"
+        fout.seek(0)
+        ferr.seek(0)
+        out, err = fout.read(), ferr.read() + extra
+        fout.close()
+        ferr.close()
+        results[i] = (pr.returncode, parse(out), err)
     return results
 
 
